@@ -272,7 +272,10 @@ func (b *Biscuit) Seal(rng io.Reader) (*Biscuit, error) {
 
 	toSignAlgorithm := make([]byte, 4)
 	binary.LittleEndian.PutUint32(toSignAlgorithm[0:], uint32(lastBlock.NextKey.Algorithm.Number()))
-	toSign := append(lastBlock.Block[:], toSignAlgorithm...)
+	// build the payload in a buffer of its own: appending to lastBlock.Block
+	// would write into the spare capacity of bytes shared with the receiver
+	toSign := append([]byte{}, lastBlock.Block...)
+	toSign = append(toSign, toSignAlgorithm...)
 	toSign = append(toSign, lastBlock.NextKey.Key[:]...)
 	toSign = append(toSign, lastBlock.Signature[:]...)
 
